@@ -53,10 +53,25 @@ def _split_args(text):
     return args
 
 
-def _kind(expr, where):
+def _decl_kind(name, before):
+    """a plain identifier: the kind its nearest preceding declaration (local variable or parameter) gives it"""
+    best = None
+    for pat, k in ((r"\b(?:const\s+)?char\s*\*\s*(?:const\s+)?%s\b", STR), (r"\b(?:unsigned\s+|signed\s+)?(?:int|long|short|size_t|bool)\s+%s\b", INT),
+                   (r"\b(?:unsigned\s+)?char\s+%s\b", CHR), (r"\b(?:double|float)\s+%s\b", REAL)):
+        for m in re.finditer(pat % re.escape(name), before):
+            if best is None or m.start() > best[0]:
+                best = (m.start(), k)
+    return None if best is None else best[1]
+
+
+def _kind(expr, where, before=""):
     e = re.sub(r"\s+", " ", expr.strip())
     for pats, k in ((STR_PATTERNS, STR), (CHR_PATTERNS, CHR), (REAL_PATTERNS, REAL), (INT_PATTERNS, INT)):
         if any(re.search(p, e) for p in pats):
+            return k
+    if re.fullmatch(r"\w+", e):
+        k = _decl_kind(e, before)
+        if k is not None:
             return k
     raise ValueError(f"{where}: cannot classify diagnostic argument `{e}`")
 
@@ -91,7 +106,7 @@ def sites(repo):
             line = text.count("\n", 0, m.start()) + 1
             skip = {"ERRORreport": 1, "ERRORreport_with_symbol": 2, "ERRORreport_with_line": 2}[m.group(1)]
             where = f"{base}:{line}"
-            out.append((where, args[0], [_kind(a, where) for a in args[skip:]]))
+            out.append((where, args[0], [_kind(a, where, text[:m.start()]) for a in args[skip:]]))
     if len(out) < 60:
         raise ValueError(f"only {len(out)} diagnostic call sites found")
     return out
